@@ -29,7 +29,8 @@ LEVEL_TEXT = ("Exhaustive core: every dead/live pattern of every list length 1-5
               "Beyond the core: thousands of generated stopping and arbitrary games through three observation routes. "
               "Each post-conditioning list is compared entry by entry with a reference model. Exploration with an "
               "exhaustive finite core is the right level: the pattern space the property text singles out is finite "
-              "and small, the space of games around it is not.")
+              "and small, the space of games around it is not."
+              ' Added while validating sensitivity: tiny positive values and subnormal live masses, repeated (probability, successor) entries next to dead ones, zero-probability entries, and (a quarter of the random cases) an earlier conditioning of the very same list objects on other targets.')
 LEVEL_NOTE = ("Trusted: the list-level model in props/c03.py (filter + renormalise, ~30 lines), the run-time wrapper "
               "that snapshots Node.next_states. Dead = reported probability exactly 0, as the statement says; "
               "probabilities compared with relative tolerance 1e-12.")
